@@ -198,6 +198,47 @@ def unit_useobjparams():
                         if after != before or pfn._restore_stack or [id(x) for x in pfn.objparams()] != cur0:
                             bad.setdefault((kind, wrap), "fault in the %s block: object / restore stack / current list not restored [aliasing %s]" % (where, pat))
                         STATS["distinct"].add(("useobjparams", kind, wrap, tuple(pat), where))
+        # a substitution that is refused because the state is locked (disable_state_change) must not unwind anything:
+        # inside an enclosing substitution the enclosing one stays in place and is restored at its own exit
+        lock_bad = None
+        for kind in ("em", "nn"):
+            tensors, pool = H._mk_tensors([0, 1, 1, 2, 0], kind)
+            obj, method, read = (H.make_editable if kind == "em" else H.make_nnmodule)(tensors)
+            pfn = pf.get_pure_function(method)
+            before = H.snapshot_module(obj)
+            cur0 = [id(x) for x in pfn.objparams()]
+            new = [st.vec("n%d" % i, (2,), (0,)) for i in range(len(cur0))]
+            new2 = [st.vec("m%d" % i, (2,), (0,)) for i in range(len(cur0))]
+            for depth in (0, 1):
+                n += 1
+                try:
+                    if depth == 0:
+                        with pfn.disable_state_change():
+                            try:
+                                with pfn.useobjparams(new):
+                                    lock_bad = lock_bad or "substitution under a state lock was not refused"
+                            except RuntimeError:
+                                pass
+                            except Exception as ex:   # noqa
+                                lock_bad = lock_bad or "refused substitution raises %s instead of RuntimeError" % type(ex).__name__
+                    else:
+                        with pfn.useobjparams(new):
+                            with pfn.disable_state_change():
+                                try:
+                                    with pfn.useobjparams(new2):
+                                        lock_bad = lock_bad or "substitution under a state lock was not refused"
+                                except RuntimeError:
+                                    pass
+                                except Exception as ex:   # noqa
+                                    lock_bad = lock_bad or "refused substitution raises %s instead of RuntimeError" % type(ex).__name__
+                            if [id(x) for x in pfn.objparams()] != [id(x) for x in new] or len(pfn._restore_stack) != 1:
+                                lock_bad = lock_bad or "a refused inner substitution unwound the enclosing one (%s)" % kind
+                except Exception as ex:   # noqa
+                    lock_bad = lock_bad or "leaving the enclosing block raises %s (%s)" % (type(ex).__name__, kind)
+                if H.snapshot_module(obj) != before or pfn._restore_stack or [id(x) for x in pfn.objparams()] != cur0:
+                    lock_bad = lock_bad or "object / restore stack not as before after a refused substitution (%s, depth %d)" % (kind, depth)
+                STATS["distinct"].add(("useobjparams_locked", kind, depth))
+        c.check("useobjparams.refused_under_a_state_lock_without_unwinding_anything", lock_bad is None, detail=lock_bad or "")
         STATS["runs"] += n
         for kind in ("em", "nn"):
             for wrap in (None, "single", "multi"):
@@ -253,6 +294,35 @@ def unit_debug_modes():
         STATS["runs"] += n
         c.check("debug_flag_restored_to_previous_value_at_every_exit(all nestings<=3, both initial flags)", bad is None,
                 detail=bad or "%d scenarios" % n)
+        # the parameter-declaration check that functionals run in debug mode executes the user's method: whatever that
+        # method does (returns, raises, or the check itself fails) the global flag keeps the caller's value
+        abad = None
+        nfl = 0
+        for init in (False, True):
+            for how in ("returns", "raises", "declaration_wrong"):
+                nfl += 1
+                tensors, pool = H._mk_tensors([0, 1, 2, 3, 4], "em")
+                obj, method, read = H.make_editable(tensors)
+                cls = type(obj)
+
+                def meth(self, *a, how=how):
+                    if how == "raises":
+                        raise UserFault("inside assertparams")
+                    return read()[0]
+                cls.method = meth
+                if how == "declaration_wrong":
+                    cls.getparamnames = lambda self, methodname, prefix="": [prefix + "no_such_attribute"]
+                dm.set_debug_mode(init)
+                try:
+                    obj.assertparams(obj.method)
+                except BaseException:    # noqa: the point is the flag afterwards, whatever is raised
+                    pass
+                if dm.is_debug_enabled() != init:
+                    abad = abad or "assertparams (method %s) leaves the debug flag %s, it was %s" % (how, dm.is_debug_enabled(), init)
+                STATS["distinct"].add(("assertparams", init, how))
+        dm.set_debug_mode(False)
+        STATS["runs"] += nfl
+        c.check("assertparams_keeps_the_debug_flag_whether_the_method_returns_raises_or_the_check_fails", abad is None, detail=abad or "")
         dm.set_debug_mode(True)
         c.check("set_debug_mode_sets", dm.is_debug_enabled() is True)
         dm.set_debug_mode(False)
